@@ -76,11 +76,11 @@ func _roll64
   requires src != nil
   requires dicePoints >= 1
   ensures [C04 C05] 1 <= result && result <= dicePoints
-  ensures [C05] dicePoints <= math.MaxInt64-1 ==> rngPos(src) > old(rngPos(src))
-  ensures [C05] dicePoints <= math.MaxInt64-1 ==> result == int64(rngDraw(src, rngPos(src)-1) % uint64(dicePoints)) + 1
-  ensures [C05] dicePoints <= math.MaxInt64-1 && uint64(dicePoints)&(uint64(dicePoints)-1) != 0 ==> rngDraw(src, rngPos(src)-1) < math.MaxUint64 - math.MaxUint64%uint64(dicePoints)
-  ensures [C05] dicePoints <= math.MaxInt64-1 && uint64(dicePoints)&(uint64(dicePoints)-1) != 0 ==> forall j in [old(rngPos(src)), rngPos(src)-1): rngDraw(src, j) >= math.MaxUint64 - math.MaxUint64%uint64(dicePoints)
-  ensures [C05] dicePoints <= math.MaxInt64-1 && uint64(dicePoints)&(uint64(dicePoints)-1) == 0 ==> rngPos(src) == old(rngPos(src)) + 1
+  ensures [C05] rngPos(src) > old(rngPos(src))
+  ensures [C05] result == int64(rngDraw(src, rngPos(src)-1) % uint64(dicePoints)) + 1
+  ensures [C05] uint64(dicePoints)&(uint64(dicePoints)-1) != 0 ==> rngDraw(src, rngPos(src)-1) < math.MaxUint64 - math.MaxUint64%uint64(dicePoints)
+  ensures [C05] uint64(dicePoints)&(uint64(dicePoints)-1) != 0 ==> forall j in [old(rngPos(src)), rngPos(src)-1): rngDraw(src, j) >= math.MaxUint64 - math.MaxUint64%uint64(dicePoints)
+  ensures [C05] uint64(dicePoints)&(uint64(dicePoints)-1) == 0 ==> rngPos(src) == old(rngPos(src)) + 1
   assigns rng.pos
   loop 1
     invariant v == rngDraw(src, rngPos(src)-1)
@@ -94,4 +94,84 @@ func Roll
   ensures [C15] dicePoints > 0 && mod == -1 ==> result == 1
   ensures [C15] dicePoints > 0 && mod == 1 ==> result == dicePoints
   ensures [C04 C05] dicePoints > 0 && mod != 1 && mod != -1 ==> 1 <= result && result <= dicePoints
+
+// ---- lemmas (raw SMT-LIB, proved on every run; expected answer: unsat) ----
+
+lemma bv_pow2_mask QF_BV [C05]
+(set-logic QF_BV)
+(declare-const n (_ BitVec 64))
+(declare-const v (_ BitVec 64))
+(assert (= (bvand n (bvsub n #x0000000000000001)) #x0000000000000000))
+(assert (not (= n #x0000000000000000)))
+(assert (not (= (bvand v (bvsub n #x0000000000000001)) (bvurem v n))))
+(check-sat)
+
+lemma bv_and_bounds QF_BV [C05]
+(set-logic QF_BV)
+(declare-const a (_ BitVec 64))
+(declare-const b (_ BitVec 64))
+(assert (not (and (bvule (bvand a b) a) (bvule (bvand a b) b)
+  (=> (and (bvsge a #x0000000000000000) (bvsge b #x0000000000000000))
+      (and (bvsge (bvand a b) #x0000000000000000) (bvsle (bvand a b) a) (bvsle (bvand a b) b))))))
+(check-sat)
+
+lemma bv_or_bounds QF_BV [C05]
+(set-logic QF_BV)
+(declare-const a (_ BitVec 64))
+(declare-const b (_ BitVec 64))
+(assert (bvsge a #x0000000000000000))
+(assert (bvsge b #x0000000000000000))
+(assert (not (and (bvsge (bvor a b) a) (bvsge (bvor a b) b) (bvule (bvor a b) (bvadd a b)))))
+(check-sat)
+
+lemma bv_pow2_divides_2_64 QF_BV [C05]
+(set-logic QF_BV)
+(declare-const n (_ BitVec 64))
+(assert (= (bvand n (bvsub n #x0000000000000001)) #x0000000000000000))
+(assert (not (= n #x0000000000000000)))
+(assert (not (= (bvurem #xffffffffffffffff n) (bvsub n #x0000000000000001))))
+(check-sat)
+
+lemma ceiling_divisible ALL [C05]
+(set-logic ALL)
+(declare-const n Int)
+(define-fun M () Int 18446744073709551615)
+(define-fun C () Int (- M (mod M n)))
+(assert (and (>= n 1) (<= n 9223372036854775807)))
+(assert (not (= (mod C n) 0)))
+(check-sat)
+
+lemma fastcheck_sound ALL [C05]
+(set-logic ALL)
+(declare-const n Int)
+(declare-const v Int)
+(define-fun M () Int 18446744073709551615)
+(define-fun C () Int (- M (mod M n)))
+(assert (and (>= n 1) (<= n 9223372036854775807) (>= v 0) (<= v (- M n))))
+(assert (not (< v C)))
+(check-sat)
+
+lemma faces_equally_likely_fwd ALL [C05]
+(set-logic ALL)
+(declare-const n Int)
+(declare-const v Int)
+(define-fun M () Int 18446744073709551615)
+(define-fun C () Int (- M (mod M n)))
+(assert (and (>= n 1) (<= n 9223372036854775807) (>= v 0) (< v C)))
+(assert (= (mod C n) 0))
+(assert (not (and (= v (+ (* n (div v n)) (mod v n))) (<= 0 (mod v n)) (< (mod v n) n) (<= 0 (div v n)) (< (div v n) (div C n)))))
+(check-sat)
+
+lemma faces_equally_likely_bwd ALL [C05]
+(set-logic ALL)
+(declare-const n Int)
+(declare-const k Int)
+(declare-const f Int)
+(define-fun M () Int 18446744073709551615)
+(define-fun C () Int (- M (mod M n)))
+(assert (and (>= n 1) (<= n 9223372036854775807) (>= k 0) (< k (div C n)) (>= f 0) (< f n)))
+(assert (= (mod C n) 0))
+(assert (= C (* n (div C n))))
+(assert (not (and (>= (+ (* k n) f) 0) (< (+ (* k n) f) C) (= (mod (+ (* k n) f) n) f) (= (div (+ (* k n) f) n) k))))
+(check-sat)
 @*/
